@@ -244,7 +244,7 @@ namespace embedded_pairing::wkdibe {
     template <bool compressed>
     struct FreeSlotMarshalled {
         Encoding<G1Affine, compressed> hexp;
-        uint32_t idx;
+        uint8_t idx[4];
     };
 
     template <bool compressed>
@@ -255,7 +255,10 @@ namespace embedded_pairing::wkdibe {
         hexpaffine.from_projective(this->hexp);
         encoded->hexp.encode(hexpaffine);
 
-        encoded->idx = uint32_swap_endianness(this->idx);
+        encoded->idx[0] = (uint8_t) (this->idx >> 24);
+        encoded->idx[1] = (uint8_t) (this->idx >> 16);
+        encoded->idx[2] = (uint8_t) (this->idx >> 8);
+        encoded->idx[3] = (uint8_t) this->idx;
     }
 
     template <bool compressed>
@@ -268,7 +271,7 @@ namespace embedded_pairing::wkdibe {
         }
         this->hexp.from_affine(hexpaffine);
 
-        this->idx = uint32_swap_endianness(encoded->idx);
+        this->idx = ((uint32_t) encoded->idx[0] << 24) | ((uint32_t) encoded->idx[1] << 16) | ((uint32_t) encoded->idx[2] << 8) | (uint32_t) encoded->idx[3];
         return true;
     }
 
